@@ -238,8 +238,16 @@ def gen_case(tp, tier):
             inner = [gen_op(tp, st, True) for _ in range(1 + tp.draw(6))]
             raise_at = tp.draw(len(inner) + 1) if tp.draw(3) == 0 else None
             if tp.draw(4) == 0:
+                # a block nested in the block, which may raise half way
+                # (handled inside the outer block)
+                sub = [gen_op(tp, st, True) for _ in range(1 + tp.draw(3))]
+                inner.insert(tp.draw(len(inner) + 1),
+                             ['bind', sub, tp.draw(len(sub) + 1)
+                              if tp.draw(2) == 0 else None])
+            if tp.draw(4) == 0:
                 # `yield from s.sync()` in the middle of the block (only
                 # meaningful from a routine in real time, else a plain block)
+                inner = [x for x in inner if x[0] != 'bind']
                 cut = tp.draw(len(inner) + 1)
                 ops.append(['bindsync', inner[:cut], inner[cut:],
                             tp.draw(4) == 0])
@@ -303,6 +311,10 @@ def shrink_candidates(case):
 
 
 # -------------------------------------------------------------- execution
+
+class Leaked(Exception):
+    """harness: a violation was recorded inside a bind block"""
+
 
 class Refused(Exception):
     """raised inside a bind block by the harness (F9)"""
@@ -1065,21 +1077,47 @@ def run_world(case, tape, ctx, w):
         addr0 = s.addr
         exp = []
         t_logical_window[0] = elapsed()
+        def block(inner, raise_at):
+            """the body of an open block -> what it adds to the bundle"""
+            out = []
+            for j, iop in enumerate(inner):
+                if raise_at is not None and j == raise_at:
+                    raise Refused()
+                if iop[0] == 'bind':
+                    # a block inside the block: its commands join the outer
+                    # bundle in issue order when it ends; when it raises and
+                    # the outer block handles that, they are not sent at all
+                    addr_in = s.addr
+                    try:
+                        with s.bind():
+                            sub = block(iop[1], iop[2])
+                        out.extend(sub)
+                        bump('bind-nested')
+                    except Refused:
+                        bump('F9-nested-bind-raised')
+                    if s.addr is not addr_in:
+                        viol.add('C17-4', 'bind-address-not-restored',
+                                 'after a nested bind block server.addr is '
+                                 'not the enclosing block\'s proxy')
+                        raise Leaked()
+                else:
+                    out.extend(perform(iop))
+                inside = wire_since(mark)
+                if inside:
+                    viol.add('C17-4', 'bind-leaks-before-exit',
+                             f'{iop} inside a bind block reached the '
+                             f'wire before the block ended: '
+                             f'{inside[0][1:3]}')
+                    raise Leaked()
+            if raise_at is not None and raise_at >= len(inner):
+                raise Refused()
+            return out
+
         try:
             with s.bind():
-                for j, iop in enumerate(inner):
-                    if raise_at is not None and j == raise_at:
-                        raise Refused()
-                    exp.extend(perform(iop))
-                    inside = wire_since(mark)
-                    if inside:
-                        viol.add('C17-4', 'bind-leaks-before-exit',
-                                 f'{iop} inside a bind block reached the '
-                                 f'wire before the block ended: '
-                                 f'{inside[0][1:3]}')
-                        return
-                if raise_at is not None and raise_at >= len(inner):
-                    raise Refused()
+                exp.extend(block(inner, raise_at))
+        except Leaked:
+            return
         except Refused:
             bump('F9-bind-raised')
             got = wire_since(mark)
